@@ -93,6 +93,11 @@ func (r *runner) run() {
 		must(json.Unmarshal(b.Genesis, &st))
 		gi = r.prof.GenesisFromState(r.app, st)
 	}
+	// the properties speak about histories from a VALID genesis
+	if err := r.app.eco.ValidateGenesis(r.app.cdc, nil, gi.Ecocredit); err != nil {
+		r.fatal = "genesis rejected by the module's own validation: " + err.Error()
+		return
+	}
 	if err := r.app.InitChain(gi); err != nil {
 		r.fatal = err.Error()
 		return
